@@ -22,6 +22,16 @@ CHECKS = {
    design_ref='DESIGN.md par.5 C02',
    note='model filesystem; Manifest parsing replaced by entry objects; compression by name only; '
         'collision-free hashes; depth <= 4'),
+ 'C03': dict(
+   text='update_entries_for_directory + save_manifests run on model trees whose prior Manifest '
+        'state is symbolic (0-2 entries per file incl. equal/sub-/superset hash sets, parent and '
+        'child duplicates, registered/stale/unregistered/invalid/absent sub-Manifest, vanished '
+        'and new files, requested hash set, sort/force); an exactness oracle on the written '
+        'model plus a fresh real verification decide each path; counterexamples are replayed '
+        'with the real update on a real directory tree.',
+   design_ref='DESIGN.md par.5 C03',
+   note='model filesystem; Manifest serialisation replaced by entry snapshots; <=2 prior '
+        'entries per path; default profile; known finding F1 excluded by its region predicate'),
  'C07': dict(
    text='Keep-going verification on model trees with a symbolic choice of discrepancy per listed '
         'file, stray bits, a missing directory and a symbolic handler policy: the multiset of '
